@@ -170,8 +170,21 @@ def rule_r4(ctx):
     for kind, ok_kinds in allowed.items():
         entry = ctx.tmpl.pending_by_kind(kind)
         rr.instances += 1
-        raises = [p for p in entry.paths if p.outcome == "raise" and p.raised.exc in ("NotImplementedError", "SyntaxError", "RuntimeError", "TypeError") and any(k.startswith("isinstance:") and v is False for k, v in p.assign.items())]
+        # contexts in which the statement's (top-level) target is none of the kinds the dispatch tests
+        import re as _re
+
+        root_pat = _re.compile(r"^isinstance:(Assign\.targets\[[^\]]*\]|AnnAssign\.target|AugAssign\.target):[A-Za-z|]+$")
+        default_paths = []
+        for p in entry.paths:
+            tests = [(k, v) for k, v in p.assign.items() if root_pat.match(k)]
+            if tests and all(v is False for _k, v in tests):
+                default_paths.append(p)
+        raises = [p for p in default_paths if p.outcome == "raise"]
         what = f"{kind}|dispatch"
+        accepted = [p for p in default_paths if p.outcome == "ok"]
+        if accepted:
+            rr.fail(f"C13-R4|{kind}|default-accepted", f"Pending{kind}: a target that is none of the handled kinds is accepted (the statement is lowered to nothing / something undefined) instead of raising [context: {short_ctx(accepted[0], 120)}]", what=what)
+            continue
         if not raises:
             rr.fail(f"C13-R4|{kind}|no-raise", f"Pending{kind}: the target dispatch has no raising default branch", what=what)
             continue
